@@ -95,6 +95,7 @@ struct InterpreterEnv : public ScriptExecutionEnvironment {
 
     // P2SH support
     bool is_p2sh;
+    bool scriptsig_push_only{true}; // the scriptSig executed before this scriptPubKey consisted of pushes only
     stack_type p2shstack;
 
     // Executed sigScript support (archaeology)
